@@ -65,8 +65,8 @@ try:
     if os.path.exists(mp):
         old = json.load(open(mp))
         allc = old.get("checks", {}); allc.update(res); meta["checks"] = allc
-        for key in ("needs", "breaks"):
-            if key in old: meta[key] = old[key]
+        for key in old:
+            if key not in meta: meta[key] = old[key]
     json.dump(meta, open(mp, "w"), indent=1)
 finally:
     shutil.rmtree(tmp, ignore_errors=True)
